@@ -541,6 +541,10 @@ def do_check(spec, pid, tier, seed, work, a, t_start):
             # a bound of the harness or of a model is too small for this tree: not a statement about the code under test
             broken.append('%s: harness/model bound exceeded: "%s" at %s' % (h['name'], p['desc'], p['loc']))
             continue
+        if 'no body for callee' in p['desc']:
+            # the tree calls a library function the harness has no model for (changed code shape): nothing can be concluded
+            broken.append('%s: no model for a callee of the unit: "%s" at %s' % (h['name'], p['desc'], p['loc']))
+            continue
         if h.get('replay'):
             try:
                 ok, why = replay_record(native, spec, h, rec, work)
